@@ -9,16 +9,17 @@ line AND text of every message, the complete instruction list).  The theorems be
 model.
 
 * `C06_parse_terminates` — the fuel is never exhausted: the recursive descent terminates.
-* `C06_parse_outcomes`, `C06_parse_outcomes_digits` — the outcome is `accept`, or `reject` with at
-  least one message, or the `ValueError` of `int()` on an integer literal of more than 4300 digits
-  (a defect of the real compiler, see `C06_int_literal_raises`).  Never a silent failure, never an
-  accepted text with messages, never any other exception.
-* `C06_no_silent_no_raise_partial` — the same with exactly that case excluded by hypothesis.
+* `C06_no_silent_no_raise` — for EVERY text the outcome is `accept` (no message recorded) or
+  `reject` with at least one message.  Never a silent failure, never an accepted text with
+  messages, never an exception (`C06_never_raises`).  (Before repository commit 6029431 an integer
+  literal of more than 4300 digits made `int()`'s `ValueError` escape; it is now rejected with
+  "Number is too long", see `C06_number_too_long_rejected`.)
 * `C06_reject_has_line` — every message carries the number of a line of the text, or 0 (the
   end-of-file token `Token(TokenTypes.EOF)` has line number 0, so "Line 0: …" is what the real
   parser prints when the text ends too early).
 * one theorem per documented rule, for an arbitrary parser state, and the rule texts of
-  `harness/c06.py` evaluated by the kernel.
+  `harness/c06.py` evaluated by the kernel (the two 4301/5000-digit texts are covered by
+  `C06_number_too_long_rejected` instead).
 
 C17 (`Props/C17.lean` proves that `Parser.parse` resets every attribute it reads): accordingly
 `ParseTok.parse` takes the text and nothing else — there is no parser state to carry over, which is
@@ -40,61 +41,30 @@ def parseLines (lines : List String) : Outcome :=
 
 theorem parse_eq_parseLines (text : String) : parse text = parseLines (text.splitOn "\n") := rfl
 
-/-- every outcome of the model -/
-theorem C06_parse_outcomes (text : String) :
-    (∃ prog, parse text = .accept prog) ∨
-    (∃ msgs, parse text = .reject msgs ∧ msgs ≠ []) ∨
-    (parse text = .raised "ValueError" ∧
-      ∃ t ∈ Lex.tokens text, t.type = "NUMBER" ∧ cvalOfNum (parseNumber t.content) = none) := by
+/-- For every text the compiler model ends in `accept` (no message was recorded) or in `reject`
+with at least one message: never a silent failure, never an accepted text with messages, never an
+exception, never out of fuel. -/
+theorem C06_no_silent_no_raise (text : String) :
+    (∃ prog, parse text = .accept prog) ∨ ∃ msgs, parse text = .reject msgs ∧ msgs ≠ [] := by
   unfold parse
-  rcases parseTokens_outcome (tokOk_tokens text) with h | ⟨msgs, h1, h2, _⟩ | ⟨h1, tok, hm, hb⟩
+  rcases parseTokens_outcome (tokOk_tokens text) with h | ⟨msgs, h1, h2, _⟩
   · exact .inl h
-  · exact .inr (.inl ⟨msgs, h1, h2⟩)
-  · refine .inr (.inr ⟨h1, ?_⟩)
-    obtain ⟨l, hl, rfl⟩ := List.mem_map.mp hm
-    refine ⟨l, hl, ?_, hb.2⟩
-    have := hb.1
-    exact (ofString_cases l.type).2.2.2.2.2.2 this
+  · exact .inr ⟨msgs, h1, h2⟩
 
 /-- the recursive descent terminates: the fuel `parse` uses is never exhausted -/
 theorem C06_parse_terminates (text : String) : parse text ≠ .outOfFuel := by
-  rcases C06_parse_outcomes text with ⟨p, h⟩ | ⟨m, h, _⟩ | ⟨h, _⟩ <;> (rw [h]; intro h'; cases h')
+  rcases C06_no_silent_no_raise text with ⟨p, h⟩ | ⟨m, h, _⟩ <;> (rw [h]; intro h'; cases h')
 
-/-- … where such a token is an integer literal of more than 4300 digits (`number_token_shape`: the
-text of a NUMBER token is matched entirely by `[0-9]*\.?[0-9]+`; `parseNumber_shape`: Python
-converts every such text except an over-long integer) -/
-theorem C06_parse_outcomes_digits (text : String) :
-    (∃ prog, parse text = .accept prog) ∨
-    (∃ msgs, parse text = .reject msgs ∧ msgs ≠ []) ∨
-    (parse text = .raised "ValueError" ∧
-      ∃ t ∈ Lex.tokens text, t.type = "NUMBER" ∧ t.content.toList.all isAsciiDigit = true ∧
-        t.content.length > 4300) := by
-  rcases C06_parse_outcomes text with h | h | ⟨h1, t, ht, hty, hb⟩
-  · exact .inl h
-  · exact .inr (.inl h)
-  · have := parseNumber_shape (number_token_shape ht hty) hb
-    exact .inr (.inr ⟨h1, t, ht, hty, this.1, by
-      have h2 := this.2
-      rw [String.length_toList] at h2
-      exact h2⟩)
-
-/-- Full statement (false for the real compiler and for the model, see `C06_int_literal_raises`):
-`∀ text, (∃ prog, parse text = .accept prog) ∨ ∃ msgs, parse text = .reject msgs ∧ msgs ≠ []`.
-Proved with exactly the one exception excluded: no integer literal of more than 4300 digits. -/
-theorem C06_no_silent_no_raise_partial (text : String)
-    (hnum : ∀ t ∈ Lex.tokens text, t.type = "NUMBER" → t.content.length ≤ 4300) :
-    (∃ prog, parse text = .accept prog) ∨ ∃ msgs, parse text = .reject msgs ∧ msgs ≠ [] := by
-  rcases C06_parse_outcomes_digits text with h | h | ⟨_, t, ht, hty, _, hl⟩
-  · exact .inl h
-  · exact .inr h
-  · have := hnum t ht hty; omega
+/-- no exception escapes (since the repository catches `int()`'s `ValueError`) -/
+theorem C06_never_raises (text : String) (k : String) : parse text ≠ .raised k := by
+  rcases C06_no_silent_no_raise text with ⟨p, h⟩ | ⟨m, h, _⟩ <;> (rw [h]; intro h'; cases h')
 
 /-- every message of a rejection carries the number of a line of the text, or 0 (end of file) -/
 theorem C06_reject_has_line (text : String) (msgs : List (Nat × String))
     (h : parse text = .reject msgs) :
     ∀ m ∈ msgs, m.1 = 0 ∨ (1 ≤ m.1 ∧ m.1 ≤ (text.splitOn "\n").length) := by
   unfold parse at h
-  rcases parseTokens_outcome (tokOk_tokens text) with ⟨p, h1⟩ | ⟨ms, h1, _, h3⟩ | ⟨h1, _⟩
+  rcases parseTokens_outcome (tokOk_tokens text) with ⟨p, h1⟩ | ⟨ms, h1, _, h3⟩
   · rw [h1] at h; cases h
   · rw [h1] at h; cases h
     intro m hm
@@ -104,34 +74,27 @@ theorem C06_reject_has_line (text : String) (msgs : List (Nat × String))
       right
       have := tokens_line hl'
       rw [← hl]; exact this
-  · rw [h1] at h; cases h
 
-/-! ## The one exception: an integer literal of more than 4300 digits -/
+/-! ## An integer literal of more than 4300 digits: rejected, with two messages
 
-theorem bind_raised {m : M α} {f : α → M β} {st s : St} {k : String} (h : m st = .raised k s) :
-    (m >>= f) st = .raised k s := by rw [bind_run, h]
+`int()` raises `ValueError` on it; `_current_literal` catches that, leaves "Number is too long" and
+returns `None`, and the caller reports in its own words that the token is no value. -/
 
-theorem currentLiteral_bad {st : St} (hb : badNum st.cur) :
-    currentLiteral st = .raised "ValueError" st := by
-  have hs : st.cur.str = st.cur.content := by simp [Tok.str, hb.1, TT.hasString]
-  simp [currentLiteral, hb.1, hs, hb.2]
+/-- a NUMBER token that `int()` refuses -/
+def tooLong (t : Tok) : Prop := t.ty = .number ∧ cvalOfNum (parseNumber t.content) = none
 
-theorem rvalue_bad {st : St} (hb : badNum st.cur) (f : Nat) (d : Dest) (cg : CG) :
-    rvalue (f + 1) d cg st = .raised "ValueError" st := by
-  have h1 : ∀ m, st.cur.isMark m = false := fun m => by simp [Tok.isMark, hb.1]
-  unfold rvalue
-  rw [getSt_bind]
-  simp only [h1, Bool.false_eq_true, if_false]
-  apply bind_raised
-  unfold rvalueSimple
-  rw [getSt_bind]
-  simp only [h1, Bool.false_eq_true, if_false]
-  rw [bind_ok (pure_run () st)]
-  apply bind_raised
-  unfold currentConstant
-  exact bind_raised (currentLiteral_bad hb)
+/-- … is, among the NUMBER tokens of the lexer, exactly an integer of more than 4300 digits
+(`number_token_shape`, `parseNumber_shape`) -/
+theorem tooLong_iff_digits {text : String} {t : Lex.Token} (h : t ∈ Lex.tokens text)
+    (hty : t.type = "NUMBER") (hb : cvalOfNum (parseNumber t.content) = none) :
+    t.content.toList.all isAsciiDigit = true ∧ t.content.length > 4300 := by
+  have := parseNumber_shape (number_token_shape h hty) hb
+  refine ⟨this.1, ?_⟩
+  have h2 := this.2
+  rw [String.length_toList] at h2
+  exact h2
 
-theorem ones_bad (n : Nat) (hn : n > 4300) :
+theorem ones_tooLong (n : Nat) (hn : n > 4300) :
     cvalOfNum (parseNumber (String.ofList (List.replicate n '1'))) = none := by
   have hd : isAsciiDigit '1' = true := by decide
   have h1 : (List.replicate n '1').all isAsciiDigit = true := by
@@ -141,11 +104,54 @@ theorem ones_bad (n : Nat) (hn : n > 4300) :
   unfold parseNumber
   simp only [String.toList_ofList, h1, if_true, h2, Bool.or_true]
   rfl
-/-- a register statement whose value is such a literal: the compiler raises -/
-theorem command_setReg_bad {st : St} {t : Tok} {r : List Tok} {reg : Reg} (f : Nat)
+
+theorem currentLiteral_tooLong {st : St} (hb : tooLong st.cur) :
+    currentLiteral st =
+      .ok none (st.addError ("Number is too long: \"" ++ st.cur.content ++ "\"")) := by
+  have hs : st.cur.str = st.cur.content := by simp [Tok.str, hb.1, TT.hasString]
+  simp [currentLiteral, hb.1, hs, hb.2]
+
+/-- such a literal as a value: rejected with the two messages -/
+theorem C06_number_too_long_rejected {st : St} (hb : tooLong st.cur) (f : Nat) (d : Dest) (cg : CG) :
+    rvalue (f + 1) d cg st =
+      .fail ((st.addError ("Number is too long: \"" ++ st.cur.content ++ "\"")).addError
+        ("Cannot use " ++ st.cur.content ++ " as a value.")) := by
+  have h1 : ∀ m, st.cur.isMark m = false := fun m => by simp [Tok.isMark, hb.1]
+  have hs : st.cur.str = st.cur.content := by simp [Tok.str, hb.1, TT.hasString]
+  unfold rvalue
+  rw [getSt_bind]
+  simp only [h1, Bool.false_eq_true, if_false]
+  apply bind_fail
+  unfold rvalueSimple
+  rw [getSt_bind]
+  simp only [h1, Bool.false_eq_true, if_false]
+  rw [bind_ok (pure_run () st)]
+  have hc : currentConstant st =
+      .ok none (st.addError ("Number is too long: \"" ++ st.cur.content ++ "\"")) := by
+    unfold currentConstant
+    rw [bind_ok (currentLiteral_tooLong hb)]
+    dsimp only
+    rw [getSt_bind]
+    have : ((st.addError ("Number is too long: \"" ++ st.cur.content ++ "\"")).cur.ty != TT.name)
+        = true := by
+      show (st.cur.ty != TT.name) = true
+      rw [hb.1]; rfl
+    simp only [this, if_true]
+    rfl
+  rw [bind_ok hc]
+  have hty : (st.addError ("Number is too long: \"" ++ st.cur.content ++ "\"")).cur.ty
+      = .number := hb.1
+  have hty' : st.cur.ty = .number := hb.1
+  simp [rvalueValue, getSt_bind, hty', tokenError, triggerError, St.addError, hs]
+
+/-- a register statement whose value is such a literal -/
+theorem command_setReg_tooLong {st : St} {t : Tok} {r : List Tok} {reg : Reg} (f : Nat)
     (hty : st.cur.ty = .register) (hreg : regOfName st.cur.str = some reg) (hnt : reg ≠ .time)
-    (hrest : st.rest = t :: r) (hb : badNum t) :
-    command (f + 1) st = .raised "ValueError" { st with cur := t, rest := r } := by
+    (hrest : st.rest = t :: r) (hb : tooLong t) :
+    command (f + 1) st =
+      .fail ((({ st with cur := t, rest := r } : St).addError
+        ("Number is too long: \"" ++ t.content ++ "\"")).addError
+        ("Cannot use " ++ t.content ++ " as a value.")) := by
   have hadv : skipToken st = .ok () { st with cur := t, rest := r } := by
     simp [skipToken, advance, hty, hrest]
   have hs1 : ({ st with cur := t, rest := r } : St).cur.ty = .number := hb.1
@@ -163,15 +169,16 @@ theorem command_setReg_bad {st : St} {t : Tok} {r : List Tok} {reg : Reg} (f : N
   have h3 : (({ st with cur := t, rest := r } : St).cur.ty == TT.literalString) = false := by
     rw [hs1]; rfl
   simp only [h3, Bool.false_eq_true, if_false]
-  exact rvalue_bad (st := { st with cur := t, rest := r }) hb _ _ _
+  exact C06_number_too_long_rejected (st := { st with cur := t, rest := r }) hb _ _ _
 
-/-- WITNESS of the exception: the tokens of `hue 111…1` (4301 digits).  The real compiler raises
-`ValueError: Exceeds the limit (4300 digits) for integer string conversion`. -/
-theorem C06_int_literal_raises :
-    parseTokens [⟨.register, "hue", 1⟩, ⟨.number, String.ofList (List.replicate 4301 '1'), 1⟩]
-      = .raised "ValueError" := by
-  have hb : badNum ⟨.number, String.ofList (List.replicate 4301 '1'), 1⟩ :=
-    ⟨rfl, ones_bad 4301 (by decide)⟩
+/-- the rule text `hue 111…1` (4301 digits) of `harness/c06.py`, on its tokens: rejected with the
+two messages the real parser prints -/
+theorem C06_long_int_text_rejected :
+    parseTokens [⟨.register, "hue", 1⟩, ⟨.number, String.ofList (List.replicate 4301 '1'), 1⟩] =
+      .reject [(1, "Number is too long: \"" ++ String.ofList (List.replicate 4301 '1') ++ "\""),
+        (1, "Cannot use " ++ String.ofList (List.replicate 4301 '1') ++ " as a value.")] := by
+  have hb : tooLong ⟨.number, String.ofList (List.replicate 4301 '1'), 1⟩ :=
+    ⟨rfl, ones_tooLong 4301 (by decide)⟩
   have hreg : regOfName "hue" = some Reg.hue := by decide +kernel
   generalize String.ofList (List.replicate 4301 '1') = c at hb
   let s0 : St :=
@@ -179,17 +186,18 @@ theorem C06_int_literal_raises :
   have e1 : initState [⟨.register, "hue", 1⟩, ⟨.number, c, 1⟩] = s0 := rfl
   unfold parseTokens script
   rw [e1]
-  let s1 : St := { s0 with cur := ⟨.number, c, 1⟩, rest := [eofTok] }
-  have hc : command (31 + 1) s0 = .raised "ValueError" s1 :=
-    command_setReg_bad (reg := .hue) 31 rfl hreg (by decide) rfl hb
+  let s1 : St := (({ s0 with cur := ⟨.number, c, 1⟩, rest := [eofTok] } : St).addError
+    ("Number is too long: \"" ++ c ++ "\"")).addError ("Cannot use " ++ c ++ " as a value.")
+  have hc : command (31 + 1) s0 = .fail s1 :=
+    command_setReg_tooLong (st := s0) (reg := .hue) 31 rfl hreg (by decide) rfl hb
   have hbody : bodyLoop (8 * [(⟨.register, "hue", 1⟩ : Tok), ⟨.number, c, 1⟩].length + 16) s0
-      = .raised "ValueError" s1 := by
+      = .fail s1 := by
     unfold bodyLoop body
     rw [getSt_bind]
     have : (s0.cur.ty == TT.eof) = false := rfl
     simp only [this, Bool.false_eq_true, if_false]
-    exact bind_raised hc
-  rw [bind_raised hbody]
+    exact bind_fail hc
+  rw [bind_fail hbody]
   rfl
 
 /-! ## The documented rules, for an arbitrary parser state -/
@@ -309,6 +317,20 @@ example : rejectMsgs (parseLines ["nosuch 1 2"]) =
     some [(1, "Unknown name: \"nosuch\"")] := by decide +kernel  -- undefined-name
 example : rejectMsgs (parseLines ["print [nosuch 1]"]) =
     some [(1, "Unknown name: \"nosuch\"")] := by decide +kernel  -- undefined-name
+example : rejectMsgs (parseLines ["repeat with i in \"Top\" hue 5"]) =
+    some [(1, "Needed \"from\" or \"cycle\", got \"in\"")] := by decide +kernel  -- malformed-loop
+example : rejectMsgs (parseLines ["repeat with i in \"Top\" and \"Candle\" begin hue 5 end"]) =
+    some [(1, "Needed \"from\" or \"cycle\", got \"in\"")] := by decide +kernel  -- malformed-loop
+example : rejectMsgs (parseLines ["assign y y"]) =
+    some [(1, "Unknown: \"y\"")] := by decide +kernel  -- undefined-name
+example : rejectMsgs (parseLines ["repeat with i from 1 to i begin print i end"]) =
+    some [(1, "Unknown: \"i\"")] := by decide +kernel  -- undefined-name
+example : rejectMsgs (parseLines ["repeat 3 with i from i to 5 begin print i end"]) =
+    some [(1, "Unknown: \"i\"")] := by decide +kernel  -- undefined-name
+example : rejectMsgs (parseLines ["repeat 4 with i cycle i begin print i end"]) =
+    some [(1, "Unknown: \"i\"")] := by decide +kernel  -- undefined-name
+example : rejectMsgs (parseLines ["repeat all as L with i from 1 to i begin print i end"]) =
+    some [(1, "Unknown: \"i\"")] := by decide +kernel  -- undefined-name
 example : rejectMsgs (parseLines ["define f begin define g begin print 1 end end"]) =
     some [(1, "Nested definition not allowed.")] := by decide +kernel  -- nested-define
 example : rejectMsgs (parseLines ["repeat 2 begin hue 5"]) =
